@@ -14,6 +14,7 @@ pub mod bn;
 pub mod ctx;
 pub mod elem;
 pub mod bytes;
+pub mod parity;
 pub mod poly;
 pub mod smt;
 pub mod world;
@@ -22,6 +23,7 @@ pub use bn::{Big, Modulus, U};
 pub use bytes::*;
 pub use ctx::*;
 pub use elem::E;
+pub use parity::*;
 
 /// Known prime group orders (hex).
 pub fn order_hex(name: &str) -> &'static str {
